@@ -27,6 +27,7 @@ MOUNTS = {
     "tracker_h.rs": ("src/transaction_tracker.rs", "verif_kani"),
     "base_h.rs": ("src/tree_store/page_store/base.rs", "verif_kani"),
     "btreev_h.rs": ("src/tree_store/btree.rs", "verif_kani"),
+    "db_h.rs": ("src/db.rs", "verif_kani"),
 }
 
 
@@ -131,9 +132,12 @@ def build(ov, gen_for=None, debug_assertions=True):
     # private module of page_store, which is private to tree_store): re-export chain
     with open(os.path.join(ov, "src/tree_store/page_store/mod.rs"), "a") as fh:
         fh.write("\n#[cfg(kani)]\npub(crate) use page_manager::verif_kani::literal_mem_default as verif_literal_mem;\n"
-                 "#[cfg(all(kani, not(debug_assertions)))]\npub(crate) use base::verif_kani::page_impl as verif_page_impl;\n")
+                 "#[cfg(all(kani, not(debug_assertions)))]\npub(crate) use base::verif_kani::page_impl as verif_page_impl;\n"
+                 "#[cfg(kani)]\npub(crate) use page_manager::verif_kani::{set_cur_mem as verif_set_cur_mem, backend_counters as verif_backend_counters};\n"
+)
     with open(os.path.join(ov, "src/tree_store/mod.rs"), "a") as fh:
-        fh.write("\n#[cfg(kani)]\npub(crate) use page_store::verif_literal_mem;\n")
+        fh.write("\n#[cfg(kani)]\npub(crate) use page_store::{verif_literal_mem, verif_set_cur_mem, verif_backend_counters};\n"
+                 "#[cfg(all(kani, not(debug_assertions)))]\npub(crate) use page_store::verif_page_impl;\n")
     return mounted
 
 
